@@ -9,7 +9,7 @@ ASSUME = ['demonic oracle (kani/src/oracle.rs): any correct SatSolver may return
 def run(tier, seed):
     return kani_check.run("C02", ["c02_"], tier, seed, dict(
         functions=FUNCS, bounds="credulous acceptance (DC) without certificate: stable, complete (DC-CO, DC-PR) and grounded solvers; " + BOUNDS, assumptions=ASSUME),
-        jobs=4, timeout_s=1500 if tier == "quick" else 5400)
+        jobs=6)
 
 
 def replay(path):
